@@ -26,7 +26,7 @@ const PROPERTY: &str = "C15";
 #[derive(Clone, Debug, PartialEq)]
 enum Op {
     Write { ty: Ty, raw: i64, codec: Codec, fault: WriteFault },
-    ForeignBin { ty: Ty, raw: i64 },
+    ForeignBin { ty: Ty, raw: i64, codec: Codec },
     ForeignText { ty: Ty, text: String },
     /// a raw JSON fragment that need not be a string (number, null, array, ...)
     ForeignJson { ty: Ty, json: String },
@@ -543,7 +543,7 @@ fn exec_op(op: &Op, w: &mut World, enumerate: bool, stats: &mut Stats, log: &mut
                         lost: false,
                         payload_kind: "serialized",
                     });
-                    if *codec == Codec::Bincode && len != ty.bin_width() {
+                    if matches!(*codec, Codec::Bincode | Codec::BincodeBe) && len != ty.bin_width() {
                         return Some(Violation {
                             class: "roundtrip",
                             sig: format!("binary_width:{}", ty.name()),
@@ -552,13 +552,12 @@ fn exec_op(op: &Op, w: &mut World, enumerate: bool, stats: &mut Stats, log: &mut
                     }
                     // the documented forms themselves, not just "it reads back"
                     if !fired {
-                        if *codec == Codec::Bincode {
-                            let want: Vec<u8> = if ty.bin_width() == 4 { (*raw as i32).to_le_bytes().to_vec() } else { raw.to_le_bytes().to_vec() };
+                        if let Some(want) = codec.expected_binary(*raw, ty.bin_width()) {
                             if clean != want {
                                 return Some(Violation {
                                     class: "layout",
                                     sig: format!("binary_form:{}", ty.name()),
-                                    detail: format!("{} with raw count {} serialized in the compact binary form as {:02x?}, expected the raw count {:02x?}", ty.name(), raw, clean, want),
+                                    detail: format!("{} with raw count {} serialized in the compact binary form ({}) as {:02x?}, expected the raw count {:02x?}", ty.name(), raw, codec.name(), clean, want),
                                 });
                             }
                         } else if let Some(text) = expected_text(*ty, *raw) {
@@ -621,20 +620,16 @@ fn exec_op(op: &Op, w: &mut World, enumerate: bool, stats: &mut Stats, log: &mut
                 Encoded::NotAValue => None,
             }
         }
-        Op::ForeignBin { ty, raw } => {
+        Op::ForeignBin { ty, raw, codec } => {
             let off = w.disk.data.len();
-            let bytes: Vec<u8> = if ty.bin_width() == 4 {
-                (*raw as i32).to_le_bytes().to_vec()
-            } else {
-                raw.to_le_bytes().to_vec()
-            };
+            let bytes: Vec<u8> = codec.expected_binary(*raw, ty.bin_width()).unwrap_or_default();
             w.disk.data.extend_from_slice(&bytes);
             w.disk.damaged.resize(w.disk.data.len(), false);
             w.cat.push(Entry {
                 off,
                 len: bytes.len(),
                 ty: *ty,
-                codec: Codec::Bincode,
+                codec: *codec,
                 value: None,
                 acked: true,
                 lost: false,
@@ -1043,7 +1038,8 @@ fn simulate_run(seed: u64, run: u64, fault_free: bool, stats: &mut Stats) -> (Sc
                 step!(Op::ForeignJson { ty, json });
             } else if use_foreign && rng.chance(1, 4) {
                 if rng.bool() {
-                    step!(Op::ForeignBin { ty, raw: draw_foreign_raw(&mut rng, ty) });
+                    let codec = *rng.pick(&[Codec::Bincode, Codec::Bincode, Codec::BincodeVar, Codec::BincodeBe]);
+                    step!(Op::ForeignBin { ty, raw: draw_foreign_raw(&mut rng, ty), codec });
                 } else if rng.bool() {
                     let texts = foreign_texts(ty);
                     step!(Op::ForeignText { ty, text: rng.pick(&texts).to_string() });
@@ -1088,7 +1084,7 @@ fn simulate_run(seed: u64, run: u64, fault_free: bool, stats: &mut Stats) -> (Sc
             } else if rng.chance(1, 16) {
                 let n = 1 + rng.usize_below(5);
                 let raws: Vec<i64> = (0..n).map(|_| draw_value(&mut rng, ty)).collect();
-                let codec = if rng.bool() { Codec::Json } else { Codec::Bincode };
+                let codec = Codec::draw(&mut rng);
                 step!(Op::WriteTable { ty, raws, codec });
             } else if rng.chance(1, 10) {
                 // a value returned by the crate's own arithmetic, with operands that tend to
@@ -1113,10 +1109,10 @@ fn simulate_run(seed: u64, run: u64, fault_free: bool, stats: &mut Stats) -> (Sc
                 } else {
                     a
                 };
-                let codec = if rng.bool() { Codec::Json } else { Codec::Bincode };
+                let codec = Codec::draw(&mut rng);
                 step!(Op::WriteDerived { kind, a, b, codec });
             } else {
-                let codec = if rng.bool() { Codec::Json } else { Codec::Bincode };
+                let codec = Codec::draw(&mut rng);
                 let fault = if use_write_faults { draw_write_fault(&mut rng) } else { WriteFault::None };
                 // consecutive values are often neighbours (sorted rows, the same day, one unit apart)
                 let raw = match (&last_written, rng.below(4)) {
@@ -1341,7 +1337,7 @@ fn script_to_json(s: &Script) -> Value {
             Op::Write { ty, raw, codec, fault } => {
                 json!({"op": "write", "type": ty.name(), "raw": raw, "codec": codec.name(), "write_fault": wf_to_json(fault)})
             }
-            Op::ForeignBin { ty, raw } => json!({"op": "foreign_bin", "type": ty.name(), "raw": raw}),
+            Op::ForeignBin { ty, raw, codec } => json!({"op": "foreign_bin", "type": ty.name(), "raw": raw, "codec": codec.name()}),
             Op::ForeignText { ty, text } => json!({"op": "foreign_text", "type": ty.name(), "text": text}),
             Op::ForeignJson { ty, json } => json!({"op": "foreign_json", "type": ty.name(), "json": json}),
             Op::ForeignValue { ty, kind, raw, text, human } => json!({"op": "foreign_value", "type": ty.name(), "kind": kind, "raw": raw, "text": text, "human_readable": human}),
@@ -1373,7 +1369,11 @@ fn script_from_json(v: &Value) -> Result<Script, String> {
                 codec: Codec::from_name(o["codec"].as_str().unwrap_or("")).ok_or("codec")?,
                 fault: wf_from_json(&o["write_fault"]),
             },
-            "foreign_bin" => Op::ForeignBin { ty: ty()?, raw: o["raw"].as_i64().ok_or("raw")? },
+            "foreign_bin" => Op::ForeignBin {
+                ty: ty()?,
+                raw: o["raw"].as_i64().ok_or("raw")?,
+                codec: Codec::from_name(o["codec"].as_str().unwrap_or("bincode")).filter(|c| c.is_binary()).unwrap_or(Codec::Bincode),
+            },
             "foreign_text" => Op::ForeignText { ty: ty()?, text: o["text"].as_str().ok_or("text")?.to_string() },
             "foreign_json" => Op::ForeignJson { ty: ty()?, json: o["json"].as_str().ok_or("json")?.to_string() },
             "foreign_value" => Op::ForeignValue {
@@ -1482,7 +1482,7 @@ fn control_sweep(idx: u64, stats: &mut Stats) -> Option<(Script, Violation)> {
         if !ty.in_range(raw) {
             continue;
         }
-        for codec in [Codec::Json, Codec::Bincode] {
+        for codec in [Codec::Json, Codec::Bincode, Codec::BincodeVar, Codec::BincodeBe] {
             let mut buf: Vec<u8> = Vec::with_capacity(40);
             let enc = codec::encode(ty, raw, codec, &mut buf);
             stats.encodes += 1;
